@@ -7,6 +7,7 @@ open GV.FFT
 #print axioms C10_inverse_DIF_of_DIT
 #print axioms C10_bitReverse_involution
 #print axioms C10_bitReverse_index
+#print axioms C10_bitrevDigest
 #print axioms C10_options_irrelevant
 #print axioms C10_forward_of_inverse
 #print axioms C10_generator_order
